@@ -311,6 +311,13 @@ func (e *Engine) cmdCheck(prop, tier, evid, known, replayDir string, replay bool
 	case "C05":
 		all = append(all, e.parseWidthObligations()...)
 		all = append(all, e.mnemonicTableObligations()...)
+	case "C06":
+		// keyword case does not change what a zone file denotes: the mnemonic lookups fold the token first
+		for _, ob := range e.mnemonicTableObligations() {
+			if strings.HasSuffix(ob.Name, "#mnemonics.folded") {
+				all = append(all, ob)
+			}
+		}
 	}
 	all = append(all, e.wirefmtObligations(prop)...)
 	all = append(all, bindFailures...)
